@@ -679,6 +679,9 @@ HandleHeartbeat(c, n, d, m) ==
 Restore(c, n, d, s, rto) ==
   IF Block("restore_index_le_commit", s.index <= n.commit) THEN [n |-> n, ok |-> FALSE]
   ELSE IF n.role # "F" THEN [n |-> BecomeFollower(c, n, d, n.term + 1, None, rto), ok |-> FALSE]
+  \* entries handed to the application whose application is not acknowledged yet may contain configuration
+  \* changes; the snapshot is not installed over them (repair of finding F8)
+  ELSE IF Block("restore_not_while_applying", n.applying > n.applied) THEN [n |-> n, ok |-> FALSE]
   ELSE IF ~Weak("restore_member_only")
           /\ c.id \notin (SeqSet(s.conf.voters) \cup SeqSet(s.conf.learners) \cup SeqSet(s.conf.outgoing))
        THEN [n |-> n, ok |-> FALSE]
